@@ -232,25 +232,27 @@ def ref_check_written(graph_in, gel_w, bounds):
         if not cands:
             out.append(("written-gel:edge-invented", "written edge %r %s has no source edge in %s" % (k, J(rec), J(ein))))
             continue
-        # some input edge on that pair must explain the record
-        best = None
+        # some input edge on that pair must explain the record; otherwise name the clause at which the
+        # closest candidate (the one agreeing on most fields) fails
+        best, best_rank = None, -1
         for e in cands:
-            why = None
-            okw, whyw = weight_ok(float(e.get("weight", 0.0)), rec.get("weight"), bounds)
+            w_e = float(e.get("weight", 0.0))
+            okw, whyw = weight_ok(w_e, rec.get("weight"), bounds)
             if not okw:
-                why = "weight-" + whyw + ":" + wclass(float(e.get("weight", 0.0)))
+                why, rank = "weight-" + whyw + ":" + wclass(w_e), 0
             elif str(rec.get("rel")) != str(e.get("rel", "coact")):
-                why = "field:rel"
+                why, rank = "field:rel", 1
             elif not deq(_norm_attrs(rec), _norm_attrs(e)):
-                why = "field:attrs"
+                why, rank = "field:attrs", 2
             elif not deq(rec.get("updated_at"), e.get("updated_at")):
-                why = "field:updated_at"
+                why, rank = "field:updated_at", 3
             elif {str(rec.get("src")), str(rec.get("dst"))} != {str(e.get("src", "")), str(e.get("dst", ""))}:
-                why = "field:endpoints"
-            if why is None:
+                why, rank = "field:endpoints", 4
+            else:
                 best = None
                 break
-            best = best or why
+            if rank > best_rank:
+                best, best_rank = why, rank
         if best is not None:
             out.append(("written-gel:" + best, "input edge(s) %s written as %s under bounds %s" % (J(cands), J(rec), bounds)))
     for p in by_pair:
@@ -608,12 +610,15 @@ def enumerate_rt(thorough: bool):
     shapes = [(s, t, r) for s in IDS for t in IDS for r in RELS]
 
     # F1 — one edge: every (src,dst,rel) x weight x container x bounds cfg [x attrs x updated_at]
-    au = [(a, u) for a in ATTRS for u in UPDS] if thorough else [(ATTRS[2], UPDS[1])]
+    #      (thorough: the full attrs x updated_at product under the cfgs {t4-default, t4-posmin}, one fixed
+    #       attrs/updated_at pair under the other three)
+    au_fixed = (ATTRS[2], UPDS[1])
+    au_all = [(a, u) for a in ATTRS for u in UPDS]
     for (s, t, r) in shapes:
         for w in WEIGHTS:
-            for (a, u) in au:
-                for cont in CONTAINERS:
-                    for cfg in cfgs:
+            for cfg in cfgs:
+                for (a, u) in (au_all if (thorough and cfg in ("t4-default", "t4-posmin")) else [au_fixed]):
+                    for cont in CONTAINERS:
                         cases.append(base_case(mk_graph([mk_edge(s, t, r, w, a, u)], cont), cfg))
     if not thorough:
         for (s, t, r) in (("a", "b", "coact"), ("b", "a", "concept")):
@@ -626,7 +631,7 @@ def enumerate_rt(thorough: bool):
     # F2 — two edges (ordered): shapes over ids {a,b,""}, weight pairs, list + canonical dict containers
     ids2 = ["a", "b", ""]
     shapes2 = [(s, t, r) for s in ids2 for t in ids2 for r in RELS]
-    w2 = [NAN, 7.0, -7.0, 0.1234565, 0.5] if thorough else [NAN, 7.0, 0.5]
+    w2 = [NAN, 7.0, -7.0, 0.1234565, 0.5] if thorough else [NAN, 7.0]
     cfg2 = ["t4-default", "t4-posmin"] if thorough else ["t4-default"]
     for sh1 in shapes2:
         for sh2 in shapes2:
@@ -642,8 +647,9 @@ def enumerate_rt(thorough: bool):
 
     # F3 — three edges (ordered)
     if thorough:
-        ids3 = ["a", "b", "é→x"]
-        shapes3 = [(s, t, "coact") for s in ids3 for t in ids3] + [("a", "b", "concept"), ("b", "a", "concept")]
+        shapes3 = [(s, t, "coact") for s in ("a", "b") for t in ("a", "b")] + \
+                  [("a", "é→x", "coact"), ("é→x", "a", "coact"), ("b", "é→x", "coact"),
+                   ("a", "b", "concept"), ("b", "a", "concept")]
         w3 = [NAN, 7.0, 0.5]
     else:
         shapes3 = [("a", "b", "coact"), ("b", "a", "coact"), ("a", "b", "concept"), ("b", "é→x", "coact")]
@@ -930,7 +936,7 @@ def run(run: Run) -> None:
         "non-trivial = the write-side sanitisation has something to do (non-finite / out-of-range / >6-decimal weight, reversed "
         "orientation, list-shaped container, collapsing duplicates) or the store holds a non-finite weight. "
         "disc: {legacy body, PR34 full body, no body} x every subset of %d neighbour kinds x {older,newer} mtime, both listdir orders "
-        "inside each case." % (" x 3 attrs x 3 updated_at" if run.thorough else "", len(MEMBERS)))
+        "inside each case." % (" x 3 attrs x 3 updated_at under 2 of the cfgs" if run.thorough else "", len(MEMBERS)))
     run.pmap(_rt_worker, cases, extra=(run.scratch,))
     run.pmap(_disc_worker, dcases, extra=(run.scratch,))
     if run.n.get("listdir_intercepted", 0) == 0:
